@@ -23,6 +23,9 @@ partial def parseOp (j : Json) : Except String Op := do
   | "flag" => return .flag (← getNat j "i") (← getStr j "n") (← getBool j "b")
   | "clsFlag" => return .clsFlag (← getNat j "c") (← getStr j "n") (← getBool j "b")
   | "getParam" => return .getParam (← getNat j "i") (← getStr j "n")
+  | "setName" => return .setName (← getNat j "i") (← getNat j "v")
+  | "genName" => return .genName (← getNat j "i")
+  | "failingEntry" => return .failingEntry (← getNat j "i") (← getStr j "n")
   | "raise" => return .raise
   | "block" => return .block (← getNat j "i") (← (← getArr j "body").toList.mapM parseOp)
   | o => throw s!"unknown op {o}"
@@ -35,6 +38,7 @@ def opName : Op → String
   | .instSetAsync .. => "instSetAsync" | .newInst .. => "newInst" | .instSet .. => "instSet" | .instSetSame .. => "instSetSame"
   | .update .. => "update" | .clsSet .. => "clsSet" | .flag .. => "flag" | .clsFlag .. => "clsFlag"
   | .getParam .. => "getParam" | .raise => "raise" | .block .. => "block"
+  | .setName .. => "setName" | .genName .. => "genName" | .failingEntry .. => "failingEntry"
 
 def guardTag (s : St) (i : IId) (n : String) : String :=
   match govFlags s i n with
@@ -66,6 +70,8 @@ def branchOf (s : St) (op : Op) (r : Res) : String :=
     | .getParam i n => hasCopy s i n
     | .flag i n _ => hasCopy s i n
     | .block _ _ => s!":depth{depth op}"
+    | .failingEntry i n => guardTag s i n
+    | .setName _ v => if s.nonStr.contains v then ":invalid" else ""
     | _ => ""
   opName op ++ ":" ++ resName r ++ extra
 
@@ -103,7 +109,8 @@ def handle (req : Json) : Except String Json := do
       return (← a[0]!.getStr?, ← a[1]!.getBool?, ← a[2]!.getBool?, ← a[3]!.getNat?, ← a[4]!.getBool?)
     return (mro, decl)
   let ops ← (← getArr case "steps").toList.mapM parseOp
-  let s0 := initState npool decls
+  let bad ← match getOpt case "bad" with | some b => nats b | none => pure []
+  let s0 := initState npool decls bad
   let (_, revObs, branches) := ops.foldl (fun (acc : St × List Obs × List String) op =>
       let (s, l, b) := acc
       let (s1, r) := step s op
@@ -114,8 +121,8 @@ def handle (req : Json) : Except String Json := do
   let impl ← req.getObjVal? "impl"
   let implInit ← parseObs (← impl.getObjVal? "init")
   let implSteps ← (← getArr impl "steps").toList.mapM parseObs
-  let (nImpl, sImpl) := specHistory names implInit (ops.zip implSteps) 0
-  let (_, sModel) := specHistory names modelInit (ops.zip modelSteps) 0
+  let (nImpl, sImpl) := specHistory names bad implInit (ops.zip implSteps) 0
+  let (_, sModel) := specHistory names bad modelInit (ops.zip modelSteps) 0
   let optJ : Option String → Json := fun | some s => Json.str s | none => Json.null
   return Json.mkObj [
     ("model", Json.mkObj [("init", jObs modelInit), ("steps", Json.arr (modelSteps.map jObs).toArray)]),
